@@ -133,16 +133,22 @@ def bech32_decode_first(bech: Str) -> (Optional(Str), Optional(ListOf(Int))):
 
 @contract('bitcoin.segwit_addr:convertbits', name='convertbits_5to8', prop=P)
 def convertbits_5to8(data: ListOf(Int), frombits: Const(5), tobits: Const(8), pad: Const(False)) -> Optional(ListOf(Int)):
-    """BOUNDED + ASSUMED at call sites: strict regrouping of 5-bit groups into bytes (reference: explicit bit string)"""
-    option(bounded=3000, callable=True, assumed=True)
-    ensures((result is None) == (not (in5(data) and conv58_ok(data))))
-    ensures(implies(result is not None, result == list_of(conv58(data)) and len(result) == (5 * len(data)) // 8))
+    """BOUNDED: strict regrouping of 5-bit groups into bytes agrees with the explicit bit-string reference
+    (independent of the integer-stream specification the proved contract uses)"""
+    option(bounded=3000)
+    ensures((result is None) == (ref_regroup(list(data), 5, 8, False) is None))
+    ensures(result is None or list(result) == ref_regroup(list(data), 5, 8, False))
+    ensures((ref_regroup(list(data), 5, 8, False) is not None) == (in5(data) and conv58_ok(data)))
+    ensures(result is None or tuple(result) == tuple(conv58(data)))
 
 
 @contract('bitcoin.segwit_addr:convertbits', name='convertbits_8to5', prop=P)
 def convertbits_8to5(data: Bytes, frombits: Const(8), tobits: Const(5), pad: Const(True)) -> ListOf(Int):
-    """BOUNDED + ASSUMED at call sites: bytes regrouped into zero-padded 5-bit groups"""
+    """BOUNDED + ASSUMED at call sites: bytes regrouped into zero-padded 5-bit groups (bit-string reference and
+    integer-stream specification).  The 5 -> 8 direction is proved (convertbits_5to8_stream); this direction needs
+    nested div/mod reasoning that takes the solvers minutes, so it stays a bounded unit"""
     option(bounded=3000, callable=True, assumed=True)
+    ensures(list(result) == ref_regroup(list(data), 8, 5, True))
     ensures(result == list_of(conv85(data)) and in5(result))
 
 
@@ -339,3 +345,31 @@ _replay.GENERATORS.update({
     'convertbits_8to5': lambda rng: {'data': {'__bytes__': list(_rnd(rng, rng.choice([0, 1, 2, 3, 4, 5, 20, 32, 40]))), 'cls': 'builtins:bytes'},
                                      'frombits': 8, 'tobits': 5, 'pad': True},
 })
+
+
+# ---- convertbits PROVED against the integer-stream specification -----------------------------------------------
+@contract('bitcoin.segwit_addr:convertbits', name='convertbits_5to8_stream', prop=P)
+def convertbits_5to8_stream(data: ListOf(Int), frombits: Const(5), tobits: Const(8), pad: Const(False)) -> Optional(ListOf(Int)):
+    """strict 5 -> 8 regrouping for every input length: None exactly when a value is outside 0..31, five or more
+    bits are left over, or a left-over bit is set; otherwise the bytes of the bit stream without the left-over bits"""
+    autosplit(0, 13)
+    option(auto_unfold=False, callable=True)
+    loopvar(0, 'ret', ListOf(Int))
+    loopvar(1, 'ret', ListOf(Int))
+    invariant(0, forall(range(0, _k), lambda j: 0 <= data[j] and data[j] < 32))
+    invariant(0, 0 <= bits and bits < 8 and bits == (5 * _k) % 8 and 0 <= acc and acc == stream5(data[:_k]) % 4096)
+    invariant(0, ret == list_of(groups8(stream5(data[:_k]) // p2(bits), (5 * _k) // 8)) and len(ret) == (5 * _k) // 8)
+    hint(0, 'entry', unfold(stream5(data[:0])))
+    hint(0, 'entry', unfold(groups8(0, 0)))
+    hint(0, 'body', unfold(stream5(data[:_k + 1])))
+    hint(0, 'body', case_split(bits))
+    invariant(1, acc == pre(acc) and 0 <= bits and ((bits == pre(bits) and ret == pre(ret))
+                                                     or (pre(bits) >= 8 and bits == pre(bits) - 8 and bits < 8
+                                                         and ret == pre(ret) + [(acc // p2(bits)) % 256])))
+    decreases(1, bits)
+    hint(0, 'body_end', unfold(groups8(stream5(data[:_k]) // p2(bits), (5 * _k) // 8)))
+    hint('post', 'post', unfold(in5(data)))
+    hint('post', 'post', unfold(conv58_ok(data)))
+    hint('post', 'post', unfold(conv58(data)))
+    ensures((result is None) == (not (in5(data) and conv58_ok(data))))
+    ensures(implies(result is not None, result == list_of(conv58(data)) and len(result) == (5 * len(data)) // 8))
